@@ -94,19 +94,24 @@ Proof.
 Qed.
 Print Assumptions C04_cartesian_counts_admissible_pairs.
 
-(* estimate_probability_two_random_records_match *)
+(* estimate_probability_two_random_records_match: the four outcomes are characterised exactly
+   (PriorZeroDivision: the guards pass but there is no admissible pair, the division raises) *)
 Theorem C04_prior_formula_and_guard :
   (forall obs recall cart p,
      prior_estimate obs recall cart = PriorOk p ->
-     0 < recall /\ recall <= 1 /\ obs <= cart * recall /\ p == obs / (recall * cart) /\
+     0 < recall /\ recall <= 1 /\ obs <= cart * recall /\ ~ cart == 0 /\ p == obs / (recall * cart) /\
      (0 < cart -> 0 <= obs -> 0 <= p /\ p <= 1)) /\
   (forall obs recall cart,
      prior_estimate obs recall cart = RecallInconsistent <->
      (0 < recall /\ recall <= 1 /\ cart * recall < obs)) /\
   (forall obs recall cart,
-     prior_estimate obs recall cart = BadRecall <-> ~ (0 < recall /\ recall <= 1)).
+     prior_estimate obs recall cart = BadRecall <-> ~ (0 < recall /\ recall <= 1)) /\
+  (forall obs recall cart,
+     prior_estimate obs recall cart = PriorZeroDivision <->
+     (0 < recall /\ recall <= 1 /\ obs <= cart * recall /\ cart == 0)).
 Proof.
-  exact (conj prior_formula_and_guard (conj prior_recall_inconsistent prior_bad_recall)).
+  exact (conj prior_formula_and_guard
+          (conj prior_recall_inconsistent (conj prior_bad_recall prior_zero_division))).
 Qed.
 Print Assumptions C04_prior_formula_and_guard.
 
@@ -126,14 +131,29 @@ Proof.
 Qed.
 Print Assumptions C04_label_orientation_irrelevant.
 
-(* the sample proportion of estimate_u_values is >= 1 (the whole table is used) as soon as
-   max_pairs reaches the number of admissible pairs: _rows_needed_for_n_pairs(max_pairs) /
-   total_nodes for dedupe_only and link_and_dedupe, sqrt(max_pairs / cartesian) for link_only *)
+(* the sample proportion of estimate_u_values (Model/Estimators.v sample_proportion, regenerated
+   from estimate_u.py) is 1, i.e. the whole table is used, as soon as max_pairs reaches the number
+   of admissible pairs: n (n - 1) / 2 for dedupe_only and link_and_dedupe, the cross-table pairs
+   (the model's total_links, which is the number of admissible pairs) for link_only *)
 Theorem C04_full_sample_when_enough_pairs :
-  (forall (n : nat) (p : R), (1 <= n)%nat -> (INR n * (INR n - 1) / 2 <= p)%R ->
-     (1 <= (0.5 * (sqrt (8 * p + 1) + 1)) / INR n)%R) /\
-  (forall T p : R, (0 < T)%R -> (T <= p)%R -> (1 <= sqrt (p / T))%R).
-Proof. exact (conj full_sample_when_enough_pairs link_only_full_sample). Qed.
+  (forall lt ns max_pairs,
+     lt <> LinkOnly -> (1 <= fold_right Nat.add O ns)%nat ->
+     (INR (fold_right Nat.add O ns) * (INR (fold_right Nat.add O ns) - 1) / 2 <= max_pairs)%R ->
+     sample_proportion lt (map INR ns) max_pairs = 1%R) /\
+  (forall rc max_pairs,
+     (0 < ((sumr rc) ^ 2 - sumr (map (fun c => c ^ 2) rc)) / 2)%R ->
+     (((sumr rc) ^ 2 - sumr (map (fun c => c ^ 2) rc)) / 2 <= max_pairs)%R ->
+     sample_proportion LinkOnly rc max_pairs = 1%R) /\
+  (forall ns,
+     (((sumr (map INR ns)) ^ 2 - sumr (map (fun c => c ^ 2) (map INR ns))) / 2
+      = INR (admissible_pairs LinkOnly ns))%R) /\
+  (forall ns max_pairs,
+     (1 <= admissible_pairs LinkOnly ns)%nat -> (INR (admissible_pairs LinkOnly ns) <= max_pairs)%R ->
+     sample_proportion LinkOnly (map INR ns) max_pairs = 1%R).
+Proof.
+  exact (conj sample_full_all_pairs (conj sample_full_link_only
+          (conj link_only_total_links_is_admissible_pairs sample_full_link_only_pairs))).
+Qed.
 Print Assumptions C04_full_sample_when_enough_pairs.
 
 (* ------------------------------------------------------------------------------------ *)
@@ -192,7 +212,8 @@ Proof. vm_compute. repeat split. Qed.
 Example ex_prior :
   match prior_estimate 10 (1 # 2) 100 with PriorOk p => Qeq_bool p (1 # 5) | _ => false end = true /\
   prior_estimate 60 (1 # 2) 100 = RecallInconsistent /\
-  prior_estimate 10 2 100 = BadRecall /\ prior_estimate 10 0 100 = BadRecall.
+  prior_estimate 10 2 100 = BadRecall /\ prior_estimate 10 0 100 = BadRecall /\
+  prior_estimate 0 (1 # 2) 0 = PriorZeroDivision.
 Proof. vm_compute. repeat split. Qed.
 
 Example ex_orientation :
@@ -244,7 +265,8 @@ Theorem C04_cartesian_table_order_irrelevant :
   (forall obs recall c c', c == c' ->
      match prior_estimate obs recall c, prior_estimate obs recall c' with
      | PriorOk p, PriorOk p' => p == p'
-     | BadRecall, BadRecall | RecallInconsistent, RecallInconsistent => True
+     | BadRecall, BadRecall | RecallInconsistent, RecallInconsistent
+     | PriorZeroDivision, PriorZeroDivision => True
      | _, _ => False
      end).
 Proof. exact (conj admissible_pairs_perm (conj cartesian_perm prior_estimate_compat)). Qed.
@@ -263,4 +285,49 @@ Example ex_representation :
   estimate_u ex_rows_shuffled ex_model = estimate_u ex_rows ex_model /\
   admissible_pairs LinkOnly [2; 3; 4]%nat = admissible_pairs LinkOnly [3; 4; 2]%nat /\
   option_map Qred (cartesian LinkOnly [2; 3; 4]) = option_map Qred (cartesian LinkOnly [3; 4; 2]).
+Proof. vm_compute. repeat split. Qed.
+
+(* ------------------------------------------------------------------------------------ *)
+(* num_observed_matches (the cumulative row count of the deterministic rules = the rows the  *)
+(* blocking of C01 emits) is the number of DISTINCT admissible pairs satisfying at least one  *)
+(* rule: a pair matched by several rules is counted once.                                    *)
+(* ------------------------------------------------------------------------------------ *)
+From Splinkv Require Base.TV Model.Blocking.
+
+Theorem C04_observed_counts_each_matched_pair_once :
+  forall (rec : Type) (adm : rec -> rec -> bool) (rules : list (rec -> rec -> Splinkv.Base.TV.tv))
+         (L : list rec),
+    NoDup L ->
+    NoDup (map snd (Splinkv.Model.Blocking.block adm rules L L)) /\
+    (rules <> [] ->
+     (forall l r, (exists n, In (n, (l, r)) (Splinkv.Model.Blocking.block adm rules L L)) <->
+                  In l L /\ In r L /\ adm l r = true /\
+                  exists rk, In rk rules /\ rk l r = Splinkv.Base.TV.T) /\
+     observed_matches adm rules L
+     = length (filter (fun lr => adm (fst lr) (snd lr) &&
+                                 existsb (fun rk => Splinkv.Base.TV.isT (rk (fst lr) (snd lr))) rules)
+                      (list_prod L L))).
+Proof.
+  intros rec adm rules L HL. split; [exact (block_pairs_nodup adm rules L HL)|].
+  intros Hne. split; [intros l r; exact (block_pair_present adm rules L l r Hne)|].
+  exact (observed_counts_distinct_pairs adm rules L HL Hne).
+Qed.
+Print Assumptions C04_observed_counts_each_matched_pair_once.
+
+(* four records (id, first name, surname); dedupe (id_l < id_r); two overlapping rules: same
+   first name (pairs (1,2), (3,4)); same surname with record 1 on the left (pairs (1,2), (1,3),
+   (1,4)).  Pair (1,2) satisfies both: 4 observed matches, not 2 + 3 = 5 *)
+Definition ex_recs : list (nat * nat * nat) := [(1, 7, 5); (2, 7, 5); (3, 8, 5); (4, 8, 5)]%nat.
+Definition ex_adm (l r : nat * nat * nat) : bool := Nat.ltb (fst (fst l)) (fst (fst r)).
+Definition ex_rule_first (l r : nat * nat * nat) : Splinkv.Base.TV.tv :=
+  Splinkv.Base.TV.of_bool (Nat.eqb (snd (fst l)) (snd (fst r))).
+Definition ex_rule_sur (l r : nat * nat * nat) : Splinkv.Base.TV.tv :=
+  Splinkv.Base.TV.of_bool (Nat.eqb (snd l) (snd r) && Nat.ltb (fst (fst l)) 2).
+
+Example ex_observed :
+  observed_matches ex_adm [ex_rule_first; ex_rule_sur] ex_recs = 4%nat /\
+  observed_matches ex_adm [ex_rule_first] ex_recs = 2%nat /\
+  observed_matches ex_adm [ex_rule_sur] ex_recs = 3%nat /\
+  match prior_from_records ex_adm [ex_rule_first; ex_rule_sur] ex_recs 1 6 with
+  | PriorOk p => Qeq_bool p (2 # 3) | _ => false end = true.
 Proof. vm_compute. repeat split. Qed.
